@@ -11,9 +11,12 @@ RULE = ('CSV tables of 1..50 rows over the non-derived configured output columns
         'PDS carrier columns together with PDS columns, each row using one kind), cells with commas, quotes, leading/trailing spaces and boundary lengths, plain '
         'decimal numbers, ISO date-times across the two-digit-year window, empty cells = absent; latin_1/cp500 x blocking; through '
         'mci_csv_to_ipm / mci_ipm_to_csv as functions and through their command entry points on real files (packaged configuration, and the same configuration handed over as --config-file, as cardutil.json in $CARDUTIL_CONFIG, and without the output column list; extraction also through `mideu extract`); '
-        'non-trivial = distinct table with at least 2 rows')
+        'every table also at TEXT level (the csv text given and the csv text written, against model/Csv.v); a line feed inside a cell now and then; '
+        'plus the csv layer alone: arbitrary and malformed texts through csv.reader (StringIO and universal-newline delivery), arbitrary rows through csv.writer; '
+        'non-trivial = distinct table with at least 2 rows / csv text of at least 2 characters')
 EXHAUSTIVE = {}
-ASSUMPTIONS = ['CPython csv module: read(write(rows)) = rows for cells without CR/LF (oracle)', 'cells contain no CR/LF (outside the stated domain)']
+ASSUMPTIONS = ['CPython csv module: transcribed in model/Csv.v (writer with lineterminator LF, excel-dialect reader, DictReader) and compared with csv.reader / csv.writer on every run',
+               'cells contain no CR (a CR is not quoted by the writer and does not survive a text file: outside the stated domain)']
 SAFE = 'ABCDEFGHIJKLMNOPQRSTUVWXYZabcdefghijklmnopqrstuvwxyz0123456789 ,"\'\\/-.;:#@()'
 
 
@@ -58,6 +61,10 @@ def cell(rng, col, pk):
     s = ''.join(rng.choice(SAFE) for _ in range(n))
     if n >= 3 and rng.random() < 0.3:
         s = ' ' + s[1:-1] + ' '
+    if n >= 3 and rng.random() < 0.08:
+        # a line feed inside a cell: the csv writer quotes it and the reader keeps it (a CR would not survive a text file)
+        k = rng.randrange(n)
+        s = s[:k] + '\n' + s[k + 1:]
     return s
 
 
